@@ -1,7 +1,7 @@
 import FitModel.FileDef
 /-! Model of `filedef.Listener` (/repo/profile/filedef/listener.go) as a transition system, **with the listener's options**
 (`WithChannelBuffer`, `WithFileSets`, `WithFileFunc`) — C14, second half. It is `FitModel/Listener.lean` (kept as it is for the
-theorems of C03 that are stated on it; `FitProps/ListenerKLemmas.lean` proves that it is this model with the trivial
+theorems of C03 that are stated on it; `FitProps/ListenerKLegacyLemmas.lean` proves that it is this model with the trivial
 configuration type) plus one more shared cell:
 
 `cfg : κ` = `l.options.fileSets`, the table from the `type` field of a file_id message to the constructor of the file —
